@@ -1,0 +1,62 @@
+//go:build verif
+
+package server
+
+import (
+	"sort"
+
+	spb "github.com/openconfig/gribi/v1/proto/service"
+	"github.com/openconfig/gribigo/rib"
+	"google.golang.org/protobuf/proto"
+)
+
+// This file is compiled only with the "verif" build tag. It adds read-only
+// snapshots of internal server state for the verification harness. It changes
+// no behaviour.
+
+// VerifRIB returns the RIB of the server.
+func (s *Server) VerifRIB() *rib.RIB { return s.masterRIB }
+
+// VerifElection returns a copy of the current election ID (nil if no election
+// has taken place) and the ID of the session that is currently primary.
+func (s *Server) VerifElection() (*spb.Uint128, string) {
+	s.elecMu.RLock()
+	defer s.elecMu.RUnlock()
+	var id *spb.Uint128
+	if s.curElecID != nil {
+		id = proto.Clone(s.curElecID).(*spb.Uint128)
+	}
+	return id, s.curMaster
+}
+
+// VerifSession is a snapshot of the state of one Modify session.
+type VerifSession struct {
+	ID           string
+	Persist      bool
+	ExpectElecID bool
+	FIBAck       bool
+	SetParams    bool
+	LastElecID   *spb.Uint128
+}
+
+// VerifSessions returns a snapshot of the session table ordered by session ID.
+func (s *Server) VerifSessions() []*VerifSession {
+	s.csMu.RLock()
+	defer s.csMu.RUnlock()
+	out := []*VerifSession{}
+	for id, cs := range s.cs {
+		v := &VerifSession{ID: id}
+		if cs != nil {
+			v.SetParams = cs.setParams
+			if cs.params != nil {
+				v.Persist, v.ExpectElecID, v.FIBAck = cs.params.Persist, cs.params.ExpectElecID, cs.params.FIBAck
+			}
+			if cs.lastElecID != nil {
+				v.LastElecID = proto.Clone(cs.lastElecID).(*spb.Uint128)
+			}
+		}
+		out = append(out, v)
+	}
+	sort.Slice(out, func(i, j int) bool { return out[i].ID < out[j].ID })
+	return out
+}
